@@ -151,7 +151,7 @@ func (g *gen) emit(id int64, family string, free bool, writers []wspec, tmps map
 		pt = append(pt, CN(int64(p)))
 	}
 	for _, r := range reads {
-		rt = append(rt, CPair(CN(int64(r.Reader)), r.term()))
+		rt = append(rt, CPair(CPair(CN(int64(r.Reader)), e.urlTerm(r.URL)), r.term()))
 		d.Reads = append(d.Reads, fmt.Sprintf("r%d Get(%s) = %s", r.Reader, r.URL, r.Res))
 	}
 	items, desc := e.listing(root)
